@@ -142,6 +142,7 @@ def main(argv):
                "Non-trivial = at least one successful lookup observed; distinct by SHA-1 of the op text")
     ck.assumptions = ["keys and queries are NUL-terminated C strings without embedded NUL",
                       "char is signed (x86-64); the model orders characters by their signed value"]
+    ck.translate(["gen_trie"])
     ck.prove("C28")
     hb = ck.harness("h_trie")
     db = ck.driver("drv_trie")
